@@ -73,7 +73,11 @@ func (obj *Array) calcAndSet(list List) {
 			obj.sizes[i] = size
 			size *= len(list)
 			if i < len(obj.dims)-1 {
-				if list, ok = list[0].(List); !ok {
+				if len(list) == 0 || list[0] == nil {
+					// With a zero dimension all the dimensions after it are
+					// zero as well. An empty list may be read as nil.
+					list = nil
+				} else if list, ok = list[0].(List); !ok {
 					ErrorPanic(NewScope(), 0, "Invalid data for a %d dimension array. %s", len(obj.dims), list)
 				}
 			}
